@@ -99,7 +99,7 @@ def gen_case(seed):
 def run_case(case):
     rng = random.Random(case["seed"] * 7919 + 53)
     net = scenario.random_net(rng, allow_small_pipe=False)
-    net["latency"] = [0.0, 0.001]
+    net["latency"] = [0.0005, 0.001]
     sc = {"seed": case["seed"], "server": {"block_size": 16, "wait_future_timeout": 5.0, "users": [{"login": "u", "permissions": case["perms"]}]}, "net": net, "fs": {"delay": None}}
     viol = []
     info = {"denied": 0, "allowed": 0}
